@@ -24,9 +24,12 @@ RULE = (
     "ReferencePointMOORA, ELECTRE2 (heavy ties), WSM and InvertMinimize+SumScaler+WSM (positive shifted data), a user-written "
     "'rank by the first criterion' maker (ties), or a pipeline FilterGE/FilterLE + maker that drops alternatives, "
     "allow_missing_alternatives on and off; repeat 1-3; last_diff_strategy 'median' / 'mean' / callables max, min, half-mean; "
-    "int seed or a Generator).  A second small stream has duplicated alternatives or strategies that leave a non-best "
-    "alternative no room (refusal expected since F8; run in a child process under a 20 s alarm).  Every case is run twice "
-    "with equal seeds.  Non-trivial: at least two mutants were evaluated or the call was (rightly) refused.  Distinct by case hash."
+    "random_state: a python int, numpy.int64 / numpy.int32 of it, a numpy Generator built from it, or None; the seed is drawn "
+    "half from the boundary pool 0, 1, 2, 42, 2^31-1, 2^31, 2^32-1, 2^32, 2^63-1 (0 three times as likely) and half from "
+    "[0, 2^32); the first cases of every run are pinned to seed 0 as int / numpy.int64 / Generator and to None).  A second small stream has duplicated alternatives or strategies that leave a non-best "
+    "alternative no room (refusal expected since F8; run in a child process under a 20 s alarm).  Every case is run by two checkers "
+    "built with equal seeds, the first of which evaluates twice; all three runs must apply identical noises and matrices "
+    "(not demanded for random_state=None, where the draws are reproduced from a clone of the checker's own generator).  Non-trivial: at least two mutants were evaluated or the call was (rightly) refused.  Distinct by case hash."
 )
 ASSUMPTIONS = [
     "Generator.uniform(0, b) == b * Generator.random() draw for draw: the draws are reproduced from numpy.random.default_rng(seed) "
@@ -46,6 +49,34 @@ ALARM_S = 20
 STRATEGIES = ["median", "mean", "max", "min", "halfmean", "meanminus1", "negmean"]
 
 # --------------------------------------------------------------------------- generators
+
+SEED_POOL = [0, 0, 0, 1, 2, 42, 2 ** 31 - 1, 2 ** 31, 2 ** 32 - 1, 2 ** 32, 2 ** 63 - 1]
+SEED_KINDS = ["int", "int", "int", "npint", "npint", "generator", "generator", "none"]
+
+
+def _seed(rng):
+    """(seed, kind): kind 'int' python int | 'npint' numpy.int64 | 'npint32' | 'generator' | 'none' (seed None)"""
+    kind = rng.choice(SEED_KINDS)
+    if kind == "none":
+        return None, kind
+    seed = rng.choice(SEED_POOL) if rng.random() < 0.5 else rng.randrange(2 ** 32)
+    if kind == "npint" and seed < 2 ** 31 and rng.random() < 0.3:
+        kind = "npint32"
+    return seed, kind
+
+
+def _random_state_arg(case):
+    seed, kind = case["seed"], case["seed_kind"]
+    if kind == "none":
+        return None
+    if kind == "npint":
+        return np.int64(seed)
+    if kind == "npint32":
+        return np.int32(seed)
+    if kind == "generator":
+        return np.random.default_rng(seed)
+    return seed
+
 
 MAKERS = ["TOPSIS", "TOPSIS", "RatioMOORA", "RefPointMOORA", "ELECTRE2", "WSM", "WSMpipe", "FirstCrit", "FirstCrit"]
 
@@ -122,6 +153,7 @@ def _case(rng, zero=False):
             for j in range(k):  # every column has a tie between two alternatives that will often be neighbours
                 i, p = rng.sample(range(n), 2)
                 rows[i][j] = rows[p][j]
+    seed, seed_kind = _seed(rng)
     return {
         "kind": "zero" if zero else "rrt",
         "dm": {"matrix": rows, "objectives": objs, "weights": G.weights(rng, k, family),
@@ -130,8 +162,8 @@ def _case(rng, zero=False):
         "repeat": rng.randint(1, 3),
         "allow": rng.random() < 0.5,
         "strategy": strategy,
-        "seed": rng.randrange(2 ** 32),
-        "seed_kind": rng.choice(["int", "int", "generator"]),
+        "seed": seed,
+        "seed_kind": seed_kind,
     }
 
 
@@ -139,6 +171,10 @@ def gen(ctx):
     rng = ctx.rng
     n_main, n_zero = ctx.n(110, 3000), ctx.n(10, 100)
     cases = [_case(rng) for _ in range(n_main)]
+    # falsy / boundary forms of the seed are present in every run, whatever the stream drew
+    pinned = [(0, "int"), (0, "npint"), (0, "generator"), (None, "none"), (0, "npint32"), (1, "int"), (2 ** 32 - 1, "npint")]
+    for c, (seed, kind) in zip(cases, pinned):
+        c["seed"], c["seed_kind"] = seed, kind
     # the refusal stream is spread over the list (each of its cases runs in a child process)
     step = max(1, n_main // n_zero)
     for i in range(n_zero):
@@ -248,17 +284,49 @@ class _Recorder:
         return f"<Recorder {self.inner!r}>"
 
 
-def _one_run(case):
+def _n_draws(case):
+    k = len(case["dm"]["criteria"])
+    n = len(case["dm"]["alternatives"])
+    return (n - 1) * case["repeat"] * k + 16 * k
+
+
+def _ranks_out(rc):
+    ranks = []
+    for name, r in rc.ranks:
+        info = r.e_.rrt1
+        noise = info.noise
+        ranks.append({
+            "name": name,
+            "method": str(r.method),
+            "alts": [str(a) for a in r.alternatives],
+            "values": [int(v) for v in r.values],
+            "iteration": None if info.iteration is None else int(info.iteration),
+            "mutated": None if info.mutated is None else str(info.mutated),
+            "noise": None if noise is None else [float(x) for x in noise.to_numpy()],
+            "noise_index": None if noise is None else [str(c) for c in noise.index],
+            "missing": [str(a) for a in info.missing_alternatives],
+        })
+    return ranks
+
+
+def _one_run(case, again=False):
+    """one checker built from the case; with `again` the same checker evaluates the matrix a second time
+    (out["again"]: outcome, matrices seen and rankings of that second evaluation)"""
+    import copy
+
     from skcriteria.cmp import RankInvariantChecker
 
     dm = G.mkdm(case["dm"])
     rec = _Recorder(_build_maker(case["dmaker"]))
-    seed = case["seed"] if case["seed_kind"] == "int" else np.random.default_rng(case["seed"])
+    seed = _random_state_arg(case)
     out = {}
+    chk = None
     try:
         with _alarm(ALARM_S):
             chk = RankInvariantChecker(rec, repeat=case["repeat"], allow_missing_alternatives=case["allow"],
                                        last_diff_strategy=_strategy_arg(case["strategy"]), random_state=seed)
+            # the draws this checker is going to make, from a clone of its own generator
+            out["clone_draws"] = [float(u) for u in copy.deepcopy(chk.random_state).random(_n_draws(case))]
             rc = chk.evaluate(dm)
     except _Hang:
         out["outcome"] = "hang"
@@ -267,24 +335,25 @@ def _one_run(case):
         out["msg"] = str(e)[:200]
     else:
         out["outcome"] = "ok"
-        ranks = []
-        for name, r in rc.ranks:
-            info = r.e_.rrt1
-            noise = info.noise
-            ranks.append({
-                "name": name,
-                "method": str(r.method),
-                "alts": [str(a) for a in r.alternatives],
-                "values": [int(v) for v in r.values],
-                "iteration": None if info.iteration is None else int(info.iteration),
-                "mutated": None if info.mutated is None else str(info.mutated),
-                "noise": None if noise is None else [float(x) for x in noise.to_numpy()],
-                "noise_index": None if noise is None else [str(c) for c in noise.index],
-                "missing": [str(a) for a in info.missing_alternatives],
-            })
-        out["ranks"] = ranks
-    out["seen"] = rec.seen
-    out["answers"] = rec.answers
+        out["ranks"] = _ranks_out(rc)
+    out["seen"] = list(rec.seen)
+    out["answers"] = list(rec.answers)
+    if again and chk is not None and out["outcome"] in ("ok", "ValueError"):
+        first = len(rec.seen)
+        rec.inner_error = None
+        ag = {}
+        try:
+            with _alarm(ALARM_S):
+                rc2 = chk.evaluate(dm)
+        except _Hang:
+            ag["outcome"] = "hang"
+        except Exception as e:
+            ag["outcome"] = "dmaker-error" if rec.inner_error else G.err_name(e)
+        else:
+            ag["outcome"] = "ok"
+            ag["ranks"] = _ranks_out(rc2)
+        ag["seen"] = rec.seen[first:]
+        out["again"] = ag
     out["original"] = {k: (np.asarray(v, dtype=float).tolist() if k in ("matrix", "weights") else
                            [int(x) for x in v] if k == "objectives" else [str(x) for x in v])
                        for k, v in dm.to_dict().items()}
@@ -307,13 +376,15 @@ def _silence():
 
 def _observe_here(case):
     with _silence():
-        a = _one_run(case)
+        a = _one_run(case, again=True)
         b = _one_run(case) if a["outcome"] != "hang" else None
-    k = len(case["dm"]["criteria"])
-    n = len(case["dm"]["alternatives"])
-    # the checker's random_state handling: numpy.random.default_rng(seed) (a Generator is used as it is)
-    draws = np.random.default_rng(case["seed"]).random((n - 1) * case["repeat"] * k + 16 * k)
-    return {"a": a, "b": b, "draws": [float(u) for u in draws]}
+    if case["seed_kind"] == "none":
+        # nothing to reproduce the draws from but the checker's own generator (cloned before the run)
+        draws = a.get("clone_draws", [])
+    else:
+        # the checker's random_state handling: numpy.random.default_rng(seed) (a Generator is used as it is)
+        draws = [float(u) for u in np.random.default_rng(case["seed"]).random(_n_draws(case))]
+    return {"a": a, "b": b, "draws": draws}
 
 
 def _observe_in_child(case):
@@ -563,6 +634,20 @@ def requests(case, obs):
 # --------------------------------------------------------------------------- judge
 
 
+def _first_difference(a, b):
+    """where two runs that should coincide part: index of the evaluation and the two rows / noises"""
+    for t, (x, y) in enumerate(zip(a["seen"], b["seen"])):
+        if x != y:
+            rows = [(i, r, q) for i, (r, q) in enumerate(zip(x["matrix"], y["matrix"])) if r != q]
+            return {"evaluation": t, "rows": rows[:2]}
+    if len(a["seen"]) != len(b["seen"]):
+        return {"evaluations": [len(a["seen"]), len(b["seen"])]}
+    for t, (x, y) in enumerate(zip(a.get("ranks") or [], b.get("ranks") or [])):
+        if x != y:
+            return {"ranking": t, "first": x, "second": y}
+    return None
+
+
 def judge(case, obs, replies):
     out = []
 
@@ -638,10 +723,23 @@ def judge(case, obs, replies):
             if not np.array_equal(old + np.array(r["noise"], dtype=float), new):
                 prop(f"stored noise of experiment ({alt!r}, {it}) is not the change applied", (new - old).tolist(), r["noise"])
     # ---- equal seeds, equal experiments
-    if b is not None:
+    seeded = case["seed_kind"] != "none"  # random_state=None: fresh entropy, nothing is promised
+    sdesc = {"int": "random_state=%r", "npint": "random_state=numpy.int64(%r)", "npint32": "random_state=numpy.int32(%r)",
+             "generator": "random_state=numpy.random.default_rng(%r)"}.get(case["seed_kind"], "%r") % (case["seed"],)
+    if b is not None and seeded:
         if b["outcome"] != a["outcome"] or b["seen"] != a["seen"] or b.get("ranks") != a.get("ranks"):
-            prop("two runs with equal seeds gave different experiments",
-                 {"outcome": a["outcome"], "evaluations": len(a["seen"])}, {"outcome": b["outcome"], "evaluations": len(b["seen"])})
+            prop(f"two checkers built with equal seeds ({sdesc}) gave different experiments",
+                 {"outcome": a["outcome"], "evaluations": len(a["seen"])}, {"outcome": b["outcome"], "evaluations": len(b["seen"])},
+                 first_difference=_first_difference(a, b))
+    ag = a.get("again")
+    if ag is not None and seeded and ag["outcome"] != "hang":
+        if ag["outcome"] != a["outcome"] or ag["seen"] != a["seen"] or ag.get("ranks") != a.get("ranks"):
+            prop(f"one checker ({sdesc}) evaluating the same matrix twice gave different experiments",
+                 {"outcome": a["outcome"], "evaluations": len(a["seen"])}, {"outcome": ag["outcome"], "evaluations": len(ag["seen"])},
+                 first_difference=_first_difference(a, ag))
+    if seeded and a.get("clone_draws") is not None and obs["draws"] and a["clone_draws"] != obs["draws"]:
+        corr(f"a checker built with {sdesc} does not start from the state numpy.random.default_rng({case['seed']!r}) gives",
+             obs["draws"][:4], a["clone_draws"][:4])
     # ---- correspondence with the model
     if not replies:
         return out
@@ -697,6 +795,8 @@ def tags(case, obs):
          "strategy:" + case["strategy"], "repeat=%d" % case["repeat"], "allow=%s" % case["allow"],
          "m=%d" % len(case["dm"]["alternatives"]), "n=%d" % len(case["dm"]["criteria"]), "family:" + case["dm"]["family"],
          "seed:" + case["seed_kind"]]
+    if case["seed"] == 0:
+        t.append("seed=0:" + case["seed_kind"])
     if a["outcome"] == "ValueError":
         msg = a.get("msg", "")
         t.append("refused:" + ("missing-alternative" if msg.startswith("Missing") else
